@@ -335,6 +335,7 @@ def main():
   # the reverse index of a reference column against its abstract view, and the invariant that ties
   # it to the column's data (ReferenceRelation.* / BaseReferenceColumn.set /
   # get_updates_for_removed_target_rows): proved for all data, all writes
+  runner.semantics_selfcheck(rep)
   runner.run_property(rep, "contracts.C10_relation", bounded=False)
   d = tempfile.mkdtemp(prefix="c10-count-")
   os.environ["C10_COUNT_DIR"] = d
